@@ -43,6 +43,8 @@ OBLIGATIONS = [
     "Grog.C20.printedDistinct_of_labels",
     "Grog.Compose.reexec_downstream",
     "Grog.Compose.edit_predicts",
+    "Grog.Compose.edit_predicts_file",
+    "Grog.Compose.downstream_path",
 ]
 ASSUMPTIONS = [
     "labels of distinct nodes are distinct (BuildNodeMap is keyed by label) — hypothesis LabelsDistinct of the exactness theorems",
